@@ -72,11 +72,137 @@ Proof.
   apply sticky_fold in H; [|intros; eapply sticky_discovered; eauto]. nfs.
 Qed.
 
-Lemma sticky_inputs_available rules env F syncp s t : nf (inputs_available rules env F syncp s t) -> nf s.
+Lemma sticky_avail_body rules env F syncp s t : nf (avail_body rules env F syncp s t) -> nf s.
 Proof.
-  unfold inputs_available. destruct (aget (is_tasks (iemit s (EAvail t))) t); [|apply nf_fault_elim].
+  unfold avail_body. destruct (aget (is_tasks s) t); [|apply nf_fault_elim].
   destruct (syncp t); intros H; [apply sticky_task_finish in H|]; nfs.
 Qed.
+Lemma sticky_inputs_available rules env F syncp s t : nf (inputs_available rules env F syncp s t) -> nf s.
+Proof. unfold inputs_available. intros H. apply sticky_avail_body in H. nfs. Qed.
 
 Lemma nf_need s k r i : nf (need s k r i) <-> nf s.
 Proof. unfold need. rewrite nf_iemit. apply nf_set_kind. Qed.
+
+Lemma sticky_scan_rule rules env s k : nf (snd (scan_rule rules env s k)) -> nf s.
+Proof.
+  unfold scan_rule. destruct (is_scanned s k); auto. destruct (kind_eqb _ _); auto. cbn zeta.
+  destruct (N.eqb _ 0); [cbn [snd]; rewrite nf_need; apply nf_mod_ri|].
+  destruct (ri_cancelled _); [cbn [snd]; rewrite nf_need; apply nf_mod_ri|].
+  destruct (negb (N.eqb _ _)); [cbn [snd]; rewrite nf_need; apply nf_mod_ri|].
+  destruct (negb (valid _ _ _ _)); [cbn [snd]; rewrite nf_need, nf_iemit; apply nf_mod_ri|].
+  destruct (res_deps _); cbn [snd]; intros H; nfs.
+Qed.
+
+Lemma sticky_prior_value rules s k : nf (prior_value rules s k) -> nf s.
+Proof. unfold prior_value. cbn zeta. destruct (_ && _); auto; try apply nf_iemit. Qed.
+Lemma sticky_ready_if_nowait s k : nf (ready_if_nowait s k) -> nf s.
+Proof. unfold ready_if_nowait. destruct (aget _ _) as [ti|]; [|apply nf_fault_elim]. destruct (Nat.eqb _ _); nfs. Qed.
+Lemma sticky_begin_task s k : nf (begin_task s k) -> nf s.
+Proof. unfold begin_task. intros H. nfs. Qed.
+
+Lemma sticky_create_task rules ord s k : nf (create_task rules ord s k) -> nf s.
+Proof.
+  unfold create_task. cbn zeta. intros H. apply sticky_ready_if_nowait, sticky_prior_value, sticky_task_start, sticky_begin_task in H.
+  now apply sticky_check in H.
+Qed.
+
+Lemma sticky_demand_rule rules ord s k : nf (snd (demand_rule rules ord s k)) -> nf s.
+Proof.
+  unfold demand_rule. destruct (is_complete s k); auto. destruct (is_in_progress s k); auto.
+  destruct (kind_eqb (kind_of s k) KDoesNotNeedToRun); cbn [snd]; [apply nf_set_complete|apply sticky_create_task].
+Qed.
+
+Lemma sticky_finish_scan s k kd : nf (finish_scan s k kd) -> nf s.
+Proof. unfold finish_scan. cbn zeta. intros H. apply nf_mod_ri in H. unfold wake_scan_record in H. nfs. now apply sticky_check in H. Qed.
+Lemma sticky_defer_on_rule s inp rq : nf (defer_on_rule s inp rq) -> nf s.
+Proof. unfold defer_on_rule. intros H. apply nf_mod_ri in H. now apply sticky_check in H. Qed.
+Lemma sticky_pause_on_rule s inp rq : nf (pause_on_rule s inp rq) -> nf s.
+Proof. unfold pause_on_rule. intros H. apply nf_mod_ri in H. now apply sticky_check in H. Qed.
+Lemma sticky_defer_on_task s inp rq : nf (defer_on_task s inp rq) -> nf s.
+Proof. apply sticky_mod_ti. Qed.
+
+Lemma sticky_scan_inputs rules env ord ds : forall s rq, nf (scan_inputs rules env ord s rq ds) -> nf s.
+Proof.
+  induction ds as [|d ds IH]; intros s rq; cbn [scan_inputs]; [apply nf_fault_elim|]. cbn zeta.
+  destruct (scan_rule rules env (touch s (request_input rq d)) (request_input rq d)) as [b1 s1] eqn:E1.
+  assert (H1 : nf s1 -> nf s).
+  { intros H. apply nf_touch with (k := request_input rq d). apply sticky_scan_rule with (rules := rules) (env := env) (k := request_input rq d). now rewrite E1. }
+  destruct b1; [|intros H; apply H1; eapply sticky_defer_on_rule; eauto].
+  destruct (demand_rule rules ord s1 (request_input rq d)) as [b2 s2] eqn:E2.
+  assert (H2 : nf s2 -> nf s1).
+  { intros H. apply sticky_demand_rule with (rules := rules) (ord := ord) (k := request_input rq d). now rewrite E2. }
+  destruct b2; [|intros H; apply H1, H2; eapply sticky_defer_on_task; eauto].
+  destruct (_ && _).
+  - intros H. apply nf_iemit, sticky_finish_scan in H. auto.
+  - destruct ds; intros H; [apply sticky_finish_scan in H|apply IH in H]; auto.
+Qed.
+
+Lemma sticky_process_scan_request rules env ord s rq : nf (process_scan_request rules env ord s rq) -> nf s.
+Proof. unfold process_scan_request. destruct (negb _); auto. apply sticky_scan_inputs. Qed.
+
+Lemma sticky_step_scan rules env ord s : nf (step_scan rules env ord s) -> nf s.
+Proof. unfold step_scan. destruct (is_toscan s) eqn:E; auto. intros H. apply sticky_process_scan_request in H. nfs. Qed.
+
+Lemma sticky_route_request s t rq avail : nf (route_request s t rq avail) -> nf s.
+Proof. unfold route_request. cbn zeta. destruct avail; intros H; [|apply sticky_mod_ti in H]; nfs. Qed.
+
+Lemma sticky_process_input_request rules env ord s rq : nf (process_input_request rules env ord s rq) -> nf s.
+Proof.
+  unfold process_input_request.
+  destruct (scan_rule rules env s (iq_input rq)) as [b1 s1] eqn:E1.
+  assert (H1 : nf s1 -> nf s).
+  { intros H. apply sticky_scan_rule with (rules := rules) (env := env) (k := iq_input rq). now rewrite E1. }
+  destruct b1; [|intros H; apply H1; eapply sticky_pause_on_rule; eauto].
+  destruct (demand_rule rules ord s1 (iq_input rq)) as [b2 s2] eqn:E2.
+  assert (H2 : nf s2 -> nf s1).
+  { intros H. apply sticky_demand_rule with (rules := rules) (ord := ord) (k := iq_input rq). now rewrite E2. }
+  destruct (iq_task rq); intros H; auto. apply sticky_route_request in H. auto.
+Qed.
+
+Lemma sticky_step_inreq rules env ord s : nf (step_inreq rules env ord s) -> nf s.
+Proof. unfold step_inreq. destruct (is_inreq s) eqn:E; auto. intros H. apply sticky_process_input_request in H. nfs. Qed.
+
+Lemma sticky_decrement_wait s t : nf (decrement_wait s t) -> nf s.
+Proof.
+  unfold decrement_wait. destruct (aget _ _) as [ti|]; [|apply nf_fault_elim].
+  destruct (ti_wait ti); [apply nf_fault_elim|]. cbn zeta. destruct (Nat.eqb _ _); intros H; nfs.
+Qed.
+
+Lemma sticky_deliver rules s rq : nf (deliver rules s rq) -> nf s.
+Proof.
+  unfold deliver. destruct (iq_task rq); [|apply nf_fault_elim]. cbn zeta. intros H. apply sticky_decrement_wait in H.
+  destruct (iq_order rq); auto. now apply sticky_provide_value in H.
+Qed.
+
+Lemma sticky_step_fininreq rules s : nf (step_fininreq rules s) -> nf s.
+Proof. unfold step_fininreq. destruct (is_fininreq s) eqn:E; auto. intros H. apply sticky_deliver in H. nfs. Qed.
+
+Lemma sticky_run_ready rules env F syncp s t : nf (run_ready rules env F syncp s t) -> nf s.
+Proof.
+  unfold run_ready. cbn zeta. intros H. unfold nf in H. rewrite is_fault_upd_outstanding in H. fold (nf (inputs_available rules env F syncp
+    (set_kind (check s (kind_eqb (kind_of s t) KWaiting) FNotWaiting) t KComputing) t)) in H.
+  apply sticky_inputs_available, nf_set_kind, sticky_check in H. auto.
+Qed.
+
+Lemma sticky_step_ready rules env F syncp s : nf (step_ready rules env F syncp s) -> nf s.
+Proof. unfold step_ready. destruct (is_ready s) eqn:E; auto. intros H. apply sticky_run_ready in H. nfs. Qed.
+
+Lemma sticky_push_dummies ds : forall s, nf (push_dummies s ds) -> nf s.
+Proof. induction ds as [|d ds IH]; cbn [push_dummies]; auto. intros s H. apply IH in H. nfs. Qed.
+
+Lemma sticky_finish_task s t : nf (finish_task s t) -> nf s.
+Proof.
+  unfold finish_task. destruct (aget _ _) as [ti|]; [|apply nf_fault_elim]. cbn zeta. intros H.
+  unfold retire_task, wake_task_waiters, db_write in H.
+  match type of H with context [if ?b then _ else _] => destruct b end; unfold nf in H; autorewrite with iv in H;
+  match type of H with is_fault ?x = None => fold (nf x) in H end;
+  apply sticky_push_dummies, nf_mod_ri, nf_set_complete, sticky_check in H; auto.
+Qed.
+
+Lemma sticky_step_fintask s : nf (step_fintask s) -> nf s.
+Proof. unfold step_fintask. destruct (is_fintasks s) eqn:E; auto. intros H. apply sticky_finish_task in H. nfs. Qed.
+
+Lemma sticky_drain step ne (Hs : forall s, nf (step s) -> nf s) fuel : forall s, nf (drain step ne fuel s) -> nf s.
+Proof.
+  induction fuel as [|f IH]; intros s; cbn [drain]; destruct (ne s); auto; try apply nf_fault_elim.
+Qed.
